@@ -4,6 +4,8 @@ Core Lean only (no Mathlib).
 -/
 import AurelVerif.Model.Table
 
+deriving instance DecidableEq for Except
+
 namespace AurelVerif.Table
 variable {C : Type} {β : Type}
 
@@ -1005,6 +1007,9 @@ theorem get?_applyEstsP_est (E : Env C) (ce : List CReq) (sk : List Name) (d : R
 /-- the call computes something (it does not return its input unchanged) -/
 def Processes (E : Env C) (t : Table C) (vars ests : List Req) : Prop :=
   ((cleanVars E t vars).isEmpty && (cleanedEsts E t (cleanVars E t vars) ests).isEmpty) = false
+
+instance (E : Env C) (t : Table C) (vars ests : List Req) : Decidable (Processes E t vars ests) := by
+  unfold Processes; infer_instance
 
 /-- the scalar keys of a call: decided on the first row of the table as given -/
 def callSk (E : Env C) (t : Table C) (vars : List Req) : List Name :=
